@@ -35,7 +35,9 @@ MATH_ENV = {k: getattr(math, k) for k in dir(math) if not k.startswith('_')}
 FUNCS = {
     'sat': lambda v: max(-5.0, min(5.0, v)),          # Lipschitz 1
     'soft': lambda v: v / (1.0 + abs(v)),             # Lipschitz 1
+    'rlog': lambda v: math.log10(v),                  # raises ValueError for v <= 0 (designed scenarios only)
 }
+LIPSCHITZ_FUNCS = ('sat', 'soft')                     # the ones the random grammar may use
 
 
 class Counting(object):
@@ -173,7 +175,7 @@ def submitted_equations(case):
 def judge_period(case, parser, ts, k, skip=()):
     """-> dict(resid_ok, deco_exact, lag_exact, exo_exact) for a period reported as solved.
     Rows whose left-hand side is in `skip` are not judged (they call a function we cannot evaluate)."""
-    out = {'resid_ok': True, 'deco_exact': True, 'lag_exact': True, 'exo_exact': True}
+    out = {'resid_ok': True, 'deco_exact': True, 'lag_exact': True, 'exo_exact': True, 'undef': False}
     vals = {}
     for v in ts:
         if len(ts[v]) > k:
@@ -197,6 +199,12 @@ def judge_period(case, parser, ts, k, skip=()):
             continue
         try:
             fx = eval(rhs, env, dict(vals))
+        except ArithmeticError:
+            fx = None
+            out['undef'] = True          # the equation is not even defined at the reported values
+        except ValueError:
+            fx = None
+            out['undef'] = True
         except Exception:
             fx = None
         if lhs in deco:
@@ -305,7 +313,7 @@ def observe(case, whole=True):
         ev = {'ev': 'Step', 'k': k, 'sweeps': int(sweeps), 'cap': cap, 'horizon': horizon,
               'exit': 'converged' if exc is None else exc_class(exc),
               'errNaN': bool(err_nan), 'finite': bool(fin_ok), 'traced': bool(use_trace),
-              'resid_ok': True, 'deco_exact': True, 'lag_exact': True, 'exo_exact': True,
+              'resid_ok': True, 'deco_exact': True, 'lag_exact': True, 'exo_exact': True, 'undef': False,
               'len_sim': cl(sim), 'len_lag': cl(lag), 'len_deco': cl(deco),
               'len_min': min(lens), 'len_max': max(lens),
               'prefix_intact': bool(prefix_intact(before, ts)),
@@ -351,7 +359,7 @@ def observe(case, whole=True):
     return events
 
 
-TLA_STEP_FIELDS = ('ev', 'k', 'sweeps', 'cap', 'horizon', 'exit', 'errNaN', 'finite', 'traced', 'resid_ok',
+TLA_STEP_FIELDS = ('ev', 'k', 'sweeps', 'cap', 'horizon', 'exit', 'errNaN', 'finite', 'traced', 'resid_ok', 'undef',
                    'deco_exact', 'lag_exact', 'exo_exact', 'len_sim', 'len_lag', 'len_deco', 'len_min', 'len_max',
                    'prefix_intact', 'exp_n', 'returned')
 TLA_FINISH_FIELDS = ('ev', 'returned', 'contractive', 'exc', 'horizon', 'whole_equal', 'steps', 'lens_ok')
@@ -370,7 +378,25 @@ def for_tla(events):
 # (a) scenarios realising the behaviours of spec/Solver.tla
 # ----------------------------------------------------------------------------------------------
 
-def scenario(beh):
+SCENARIO_VARIANTS = [(pos, err) for pos in ('last', 'first') for err in ('div', 'log', 'fn')]
+
+
+def scenario_variants(beh):
+    """Behaviours whose last period has a persistent evaluation error are realised with the failing
+    equation declared last and declared first (so it is / is not the last simultaneous equation), with
+    ZeroDivisionError, ValueError (log10 of 0) and a user function raising ValueError; overflowing ones
+    with the overflowing variable declared last and first."""
+    last = beh['periods'][-1]
+    if beh['final'] == 'done' or last['deco'] != 'none':
+        return [('last', 'div')]
+    if last['last'] in ('everr_le', 'everr_gt'):
+        return list(SCENARIO_VARIANTS)
+    if last['last'] in ('overflow', 'overflow_nan'):
+        return [('last', 'div'), ('first', 'div')]
+    return [('last', 'div')]
+
+
+def scenario(beh, variant=('last', 'div')):
     """One equation block per TLC behaviour.  Every period gets its regime from exogenous switches:
     a chain c1 <- c2 <- c3 whose open depth fixes the number of sweeps, plus one failure mechanism in
     the last period.  MaxIterations = the behaviour's Cap, so sweep counts are realised exactly."""
@@ -382,6 +408,16 @@ def scenario(beh):
     failing = beh['final'] != 'done'
     c = new_case('tlc:' + beh['final'], maxtime=H, cap=cap, reduction=True, lam=10.0)
     eqs, lags, ics, exos = c['eqs'], c['lags'], c['ics'], c['exos']
+    position, errkind = variant
+    mech = []          # the equations of the failure mechanism (placed last or first)
+
+    def failing_rhs(arg):
+        if errkind == 'div':
+            return '1/%s' % arg, '1.0'
+        if errkind == 'log':
+            return 'log10(%s)' % arg, '0.0'
+        c['funcs'] = ['rlog']
+        return 'rlog(%s)' % arg, '0.0'
 
     def path(default, at=None):
         """exogenous switch: `default` everywhere, at[p] in period p"""
@@ -454,11 +490,11 @@ def scenario(beh):
                 ics.append(['o', '1.0'])
                 exos.append(['a', path(0.0, {P: -2.0})])
             if lo == 'overflow':
-                eqs.append(['v', 'v*m + (m - 1)'])
+                mech.append(['v', 'v*m + (m - 1)'])
                 ics.append(['v', '1.0'])
                 exos.append(['m', path(1.0, {P: 1e308})])
             if lo == 'overflow_nan':
-                eqs.append(['r', 'm2*1e308 - m2*1e308 + 0*r'])
+                mech.append(['r', 'm2*1e308 - m2*1e308 + 0*r'])
                 exos.append(['m2', path(1.0, {P: 10.0})])
             if lo in ('everr_le', 'everr_gt'):
                 if last['tr']:
@@ -467,16 +503,21 @@ def scenario(beh):
                     exos.append(['uz', path(1.0, {P: 0.0})])
                     prev = 'uz'
                     for j in range(1, max(1, n - 1) + 1):
-                        eqs.append(['zc%d' % j, '%s + 0*zc%d' % (prev, j)])
+                        mech.append(['zc%d' % j, '%s + 0*zc%d' % (prev, j)])
                         ics.append(['zc%d' % j, '1.0'])
                         prev = 'zc%d' % j
-                    eqs.append(['z', '1/%s + 0*z' % prev])
+                    rhs, ic = failing_rhs(prev)
                 else:
-                    eqs.append(['z', '1/gz + 0*z'])
+                    rhs, ic = failing_rhs('gz')
                     exos.append(['gz', path(1.0, {P: 0.0})])
-                ics.append(['z', '1.0'])
+                mech.append(['z', rhs + ' + 0*z'])
+                ics.append(['z', ic])
+    if position == 'first':
+        eqs[0:0] = mech
+    else:
+        eqs.extend(mech)
     c['exp'] = exp
-    c['label'] = 'tlc:%s:%s' % (beh['final'], '/'.join('%d%s%s%s' % (r['n'], 't' if r['tr'] else '', r['last'][:4],
+    c['label'] = 'tlc:%s:%s:%s:%s' % (beh['final'], position, errkind, '/'.join('%d%s%s%s' % (r['n'], 't' if r['tr'] else '', r['last'][:4],
                                                                       r['deco'][:1]) for r in periods))
     return c
 
@@ -535,6 +576,20 @@ def classics():
         add('div0-at-%d' % kf, [('x', '0.5*x + 1'), ('y', '1/z + 0*y')], exos=[['z', z]], maxtime=4, lam=1.0)
         add('deco-log-at-%d' % kf, [('x', '0.5*x + 1'), ('y', 'log(z)')], exos=[['z', [v - 0.5 for v in z]]],
             maxtime=4, lam=1.0)
+    # a persistent evaluation error in a simultaneous equation that is not the last one
+    g = [6.0, 6.0, 6.0, 5.0, 5.0, 7.0, 7.0]
+    for red in (True, False):
+        for kind, rhs, fns in (('div0', '10/z', []), ('log0', 'log10(z)', []), ('fn', 'rlog(z)', ['rlog'])):
+            add('persistent-%s-not-last' % kind, [('x', rhs), ('z', 'G - 5'), ('y', 'x + z')], exos=[['G', g]],
+                maxtime=6, lam=10.0, reduction=red, funcs=fns)
+            add('persistent-%s-last' % kind, [('z', 'G - 5'), ('y', 'x + z + 0*y'), ('x', rhs + ' + 0*x')],
+                exos=[['G', g]], maxtime=6, lam=10.0, reduction=red, funcs=fns)
+    # an overflowing variable next to converging ones, declared first and declared last
+    for red in (True, False):
+        add('overflow-first', [('x', '3*x*x + 1'), ('y', '0.5*y + 10'), ('w', 'y + x')], maxtime=3, lam=1e6,
+            reduction=red)
+        add('overflow-last', [('y', '0.5*y + 10'), ('w', 'y + x'), ('x', '3*x*x + 1')], maxtime=3, lam=1e6,
+            reduction=red)
     add('cap0-trivial', [('x', '5.0')], maxtime=2, lam=0.0, cap=0)
     add('cap0-trivial-off', [('x', '5.0')], maxtime=2, lam=0.0, cap=0, reduction=False)
     add('userfn', [('x', '0.5*sat(x) + 1 + 0.1*y'), ('y', '0.3*x + 2')], maxtime=3, lam=0.6, funcs=['sat'],
@@ -566,7 +621,7 @@ def random_system(rng, idx, contractive):
     rho = round(rng.uniform(0.0, 0.8), 3) if (contractive or rng.random() < 0.7) else round(rng.uniform(0.8, 3.0), 3)
     cmax = 100.0 if contractive else rng.choice([1.0, 100.0, 1000.0])
     use_fn = rng.random() < 0.25
-    fn = rng.choice(sorted(FUNCS)) if use_fn else None
+    fn = rng.choice(sorted(LIPSCHITZ_FUNCS)) if use_fn else None
     fn_row = rng.randrange(n) if use_fn else -1
     # aliases of x variables
     aliases = []
@@ -688,6 +743,12 @@ def signature(clause, case, events):
         if any(e['exit'] == 'converged' and e['errNaN'] for e in steps):
             return 'nan-error-exits-loop'
         return 'non-finite-value-reported-as-solved'
+    if clause == 'C11_UnsolvableRaises':
+        return 'diverged-period-not-raised'
+    if clause == 'C11_PersistentErrorRaises':
+        return 'persistent-evaluation-error-not-raised'
+    if clause == 'C02_Residual' and any(e.get('undef') for e in steps):
+        return 'equation-undefined-at-reported-values'
     if clause == 'C11_EqualLengthsAfterFailure':
         f = failing_step(events)
         if f is not None and f['len_sim'] > f['len_deco'] and f['len_sim'] == f['k'] + 1:
@@ -983,7 +1044,7 @@ def harvested_events(rec):
         fin_ok = all(finite(x) for x in reported) and len(reported) == len(nonexo)
         ev = {'ev': 'Step', 'k': k, 'sweeps': 0, 'cap': int(rec['max_iterations']), 'horizon': H,
               'exit': 'converged', 'errNaN': not fin_ok, 'finite': bool(fin_ok), 'traced': False,
-              'resid_ok': True, 'deco_exact': True, 'lag_exact': True, 'exo_exact': True,
+              'resid_ok': True, 'deco_exact': True, 'lag_exact': True, 'exo_exact': True, 'undef': False,
               'len_sim': k + 1, 'len_lag': k + 1, 'len_deco': k + 1, 'len_min': k + 1, 'len_max': k + 1,
               'prefix_intact': True, 'exp_n': -1, 'returned': True, 'lam': round(case['lam'], 6)}
         ev.update(judge_period(case, lists, ts, k, skip=sk_rows))
